@@ -283,3 +283,48 @@ def run(tier: str, seed: int) -> CompResult:
     res.samples = [{"line": lines[0], "impl": impl[0]}, {"line": lines[1], "impl": impl[1]}]
     res.exhaustive = False
     return res
+
+
+def restart_default(tier: str, seed: int) -> CompResult:
+    """pure.restart: `get_default_max_worker_restart` on real configs vs. `Ctl.defaultMaxRestart`"""
+    from _pytest.config import _prepareconfig
+
+    import xdist.plugin as P
+    from xdist.dsession import get_default_max_worker_restart
+
+    res = CompResult(component="pure.restart")
+    res.rule = "the option lattice --max-worker-restart x -n x --tx; every case is distinct"
+    lines, impl = [], []
+    for explicit in [None, "0", "1", "3", "10", "-1"]:
+        for n in [None, "0", "1", "3"]:
+            for tx in [[], ["2*popen"]]:
+                args = ["-p", "no:cacheprovider", "-p", "no:terminal", "-s"]
+                if explicit is not None:
+                    args += [f"--max-worker-restart={explicit}"]
+                if n is not None:
+                    args += ["-n", n]
+                for t in tx:
+                    args += ["--tx", t]
+                config = _prepareconfig(args, None)
+                try:
+                    P.pytest_cmdline_main(config)
+                    r = get_default_max_worker_restart(config)
+                    np_ = config.option.numprocesses
+                finally:
+                    config._ensure_unconfigure()
+                lines.append(f"restart {explicit} {np_}")
+                impl.append(str(r))
+                res.evaluations += 1
+                res.distinct.add(h(lines[-1] + str(tx)))
+                want = int(explicit) if explicit is not None else (4 * int(n) if n not in (None, "0") else None)
+                if r != want:
+                    res.violations.append(Violation("C10", "pure.restart", f"default budget for --max-worker-restart={explicit} -n {n}: {r}, documented {want}",
+                                                    "default-budget-wrong", [lines[-1]], {}))
+    model = run_driver("pure", lines)
+    for l, m, i in zip(lines, model, impl):
+        if m != i:
+            res.disagreements.append(Disagreement("pure.restart", [l], [m], [i], 0))
+        else:
+            res.traces_validated += 1
+    res.exhaustive = True
+    return res
